@@ -221,6 +221,26 @@ class CuckooDriver:
                 elif r:
                     self.model[fp] = 1
                 return
+        elif kind == "addn":
+            # the same key added many times in a row (counting filter: bin counts beyond one byte); plain filter: one add
+            k = self.pool[op[1] % len(self.pool)]
+            n = (2 + op[2] % 400) if self.counting else 1
+            for _ in range(n):
+                before = dict(self.model)
+                if self.do_add(k, op) == "full":
+                    self.model = before
+                    self.verify(f"after add({k!r}) raised CuckooFilterFullError", after_full=True)
+                    r = o.check(k)
+                    if self.counting:
+                        self.model[self.fp[k]] = int(r)
+                    elif r:
+                        self.model[self.fp[k]] = 1
+                    break
+                o = self.obj
+            self.feats.add("addn")
+            if self.counting and self.model.get(self.fp[k], 0) > 255:
+                self.feats.add("bin_count>255")
+            ctx.op("addn", op[1] % len(self.pool), n)
         elif kind == "remove":
             k = self.pool[op[1] % len(self.pool)]
             fp = self.fp[k]
@@ -340,6 +360,8 @@ def case_strategy(tier, classes=("cuckoo", "counting"), allow_reload=False, max_
         bs = draw(st.integers(1, 3))
         swaps = draw(st.integers(1, 6))
         ops = [st.tuples(st.just("add"), ki)] * 8 + [st.tuples(st.just("remove"), ki)] * 2
+        if cls == "counting" and draw(st.integers(0, 3)) == 0:
+            ops.append(st.tuples(st.just("addn"), ki, st.integers(0, 399)))
         if draw(st.integers(0, 2)) == 0:
             ops.append(st.tuples(st.just("expand")))
         if allow_reload:
